@@ -88,6 +88,9 @@ func (op *OptIAPrefix) FromBytes(data []byte) error {
 	length := buf.Read8()
 	ip := net.IP(buf.CopyN(net.IPv6len))
 
+	if length > 128 {
+		return fmt.Errorf("invalid IA prefix length: %d", length)
+	}
 	if length == 0 {
 		op.Prefix = nil
 	} else {
